@@ -123,7 +123,10 @@ class FamilyCap(BCheck):
 
     def check(self, inp):
         from runtime.phase_driver import run_phase
-        res = run_phase(inp["main_vcf"], inp["phase_vcfs"], ped=inp["ped"], max_coverage=inp["k"])
+        res = run_phase(inp["main_vcf"], inp["phase_vcfs"], ped=inp["ped"], max_coverage=inp["k"], coverage_guard=inp["k"])
+        if res.get("coverage_violation"):
+            v = res["coverage_violation"]
+            return dict(expected="at most %d reads span any solver column (family %r on %s)" % (inp["k"], v["family"], v["chromosome"]), observed=v["coverage"])
         if res["error"]:
             return dict(expected="run succeeds", observed=res["error"], traceback=res.get("traceback"))
         for call in res["solver_calls"]:
